@@ -212,7 +212,8 @@ pub fn cell_to_boundary(
 
     // Split each edge into segments before projection
     // Important to do before projection to obtain equal area cells
-    let split_pentagon = pentagon.split_edges(segments as usize);
+    // A non-positive segment count means "do not subdivide" (a negative value must not wrap to a huge usize)
+    let split_pentagon = pentagon.split_edges(segments.max(1) as usize);
     let vertices = split_pentagon.get_vertices_vec();
 
     // Unproject to obtain lon/lat coordinates
